@@ -38,6 +38,7 @@ func runC01(c *Ctx) {
 	r.Rule("R4", "every store to Line.Cmd in ParseLine stores a constant or a strings.ToUpper result")
 	r.Rule("R5", "in recv the value sent on the inbound queue is the ParseLine result with no store through it except to Time; ParseLine's argument is the ReadString('\\n') result after strings.Trim(_, \"\\r\\n\"); no branch between read and parse can skip a non-error line")
 	r.Rule("R6", "the argument list is strings.Fields(head) with the text after the first \" :\" appended on exactly the edge where the \" :\" split produced two parts (an empty trailing parameter is kept)")
+	r.Rule("R7", "every comparison with the verb constants PRIVMSG / NOTICE / ACTION in ParseLine and its helpers compares an upper-cased value (strings.ToUpper result, Line.Cmd, or a constant), so CTCP rewriting does not depend on the letter case on the wire")
 	pl := c.Func(c.Client, "ParseLine")
 	r.Anchor("R1", "ParseLine", pl != nil)
 	if pl == nil {
@@ -217,12 +218,92 @@ func runC01(c *Ctx) {
 			if call, isCall := o.(*ssa.Call); isCall && calleeName(&call.Call) == "strings.ToUpper" {
 				continue
 			}
+			if c.constTableValue(o) {
+				continue
+			}
 			ok, why = false, "verb derives from "+o.String()
 		}
 		r.Add("R4", fmt.Sprintf("cmd-store#%d", i+1), c.InstrPos(s), c.FuncKey(s.Parent()), "verb is a constant or upper-cased", ok, why)
 	}
 	// ---- R6
 	c.trailingRule(pl, lineAlloc, param)
+
+	// ---- R1 (b): nothing but the replacer transforms a tag between the ';' split and the '=' split
+	for _, fn := range plReach.Order {
+		funcInstrs(fn, func(in ssa.Instruction) {
+			call, ok := in.(*ssa.Call)
+			if !ok || calleeName(&call.Call) != "(*strings.Replacer).Replace" {
+				return
+			}
+			bad := ""
+			var follow func(v ssa.Value, d int)
+			follow = func(v ssa.Value, d int) {
+				if d > 4 || v.Referrers() == nil {
+					return
+				}
+				for _, ref := range *v.Referrers() {
+					switch t := ref.(type) {
+					case *ssa.DebugRef, *ssa.MapUpdate, *ssa.Slice, *ssa.Return, *ssa.Store:
+					case *ssa.Phi:
+						follow(t, d+1)
+					case *ssa.Call:
+						n := calleeName(&t.Call)
+						switch n {
+						case "strings.SplitN", "strings.Cut", "strings.Index", "strings.IndexByte", "builtin.len":
+						default:
+							if cal := t.Call.StaticCallee(); cal != nil && c.InModuleFn(cal) {
+								continue // handed to a helper of the parser: its own uses are inspected when it calls Replace; otherwise opaque but in-module
+							}
+							bad = "the unescaped tag is further transformed by " + n + " at " + c.InstrPos(t)
+						}
+					case *ssa.BinOp:
+						if t.Op == token.ADD {
+							bad = "the unescaped tag is concatenated at " + c.InstrPos(t)
+						}
+					}
+				}
+			}
+			follow(call, 0)
+			r.Add("R1", "tag-purity:"+c.FuncKey(fn), c.InstrPos(call), c.FuncKey(fn), "only the replacer transforms a tag before it is split at '='", bad == "", bad)
+		})
+	}
+
+	// ---- R7
+	n7 := 0
+	cmdVar := field("Cmd")
+	for _, fn := range plReach.Order {
+		funcInstrs(fn, func(in ssa.Instruction) {
+			bo, ok := in.(*ssa.BinOp)
+			if !ok || (bo.Op != token.EQL && bo.Op != token.NEQ) {
+				return
+			}
+			var other ssa.Value
+			for _, pair := range [][2]ssa.Value{{bo.X, bo.Y}, {bo.Y, bo.X}} {
+				if k, isC := constString(pair[0]); isC && (k == "PRIVMSG" || k == "NOTICE" || k == "ACTION") {
+					other = pair[1]
+				}
+			}
+			if other == nil {
+				return
+			}
+			n7++
+			okU, why := true, "compared value is upper-cased"
+			for _, o := range c.Origins(other) {
+				if _, isC := constString(o); isC {
+					continue
+				}
+				if call, isCall := o.(*ssa.Call); isCall && calleeName(&call.Call) == "strings.ToUpper" {
+					continue
+				}
+				if fv, _ := loadedField(o); fv == cmdVar {
+					continue
+				}
+				okU, why = false, "compared value derives from "+o.String()+", which is not upper-cased"
+			}
+			r.Add("R7", fmt.Sprintf("verb-compare:%s#%d", c.FuncKey(fn), n7), c.InstrPos(bo), c.FuncKey(fn), "verb comparisons are case-insensitive (upper-cased operand)", okU, why)
+		})
+	}
+	r.Floor("R7", "comparisons with PRIVMSG/NOTICE/ACTION in the parser", n7, 2)
 
 	// ---- R5
 	var producer *ssa.Function
@@ -378,7 +459,7 @@ func (c *Ctx) varargElemsOrdered(v ssa.Value) []ssa.Value {
 func (c *Ctx) trailingRule(pl *ssa.Function, lineAlloc *ssa.Alloc, param *ssa.Parameter) {
 	r := c.R
 	var split *ssa.Call
-	isCut := false
+	isCut, isIdx := false, false
 	funcInstrs(pl, func(in ssa.Instruction) {
 		call, ok := in.(*ssa.Call)
 		if !ok {
@@ -395,16 +476,39 @@ func (c *Ctx) trailingRule(pl *ssa.Function, lineAlloc *ssa.Alloc, param *ssa.Pa
 			if sep, ok := constString(call.Call.Args[1]); ok && sep == " :" {
 				split, isCut = call, true
 			}
+		case "strings.Index":
+			if sep, ok := constString(call.Call.Args[1]); ok && sep == " :" {
+				split, isIdx = call, true
+			}
 		}
 	})
 	if split == nil {
-		r.Add("R6", "trailing-split", c.Pos(pl.Pos()), c.FuncKey(pl), "the middle/trailing split is strings.SplitN(rest, \" :\", 2) or strings.Cut(rest, \" :\")", false, "neither idiom found: undecided (fail closed)")
+		r.Add("R6", "trailing-split", c.Pos(pl.Pos()), c.FuncKey(pl), "the middle/trailing split is strings.SplitN(rest, \" :\", 2), strings.Cut(rest, \" :\") or strings.Index(rest, \" :\") with slicing", false, "no recognised idiom: undecided (fail closed)")
 		return
 	}
+	rest := split.Call.Args[0]
 	part := func(v ssa.Value, i int) bool {
-		if isCut {
+		switch {
+		case isCut:
 			ex, ok := v.(*ssa.Extract)
 			return ok && ex.Tuple == ssa.Value(split) && ex.Index == i
+		case isIdx:
+			sl, ok := v.(*ssa.Slice)
+			if !ok || sl.X != rest {
+				return false
+			}
+			if i == 0 {
+				return sl.Low == nil && sl.High == ssa.Value(split)
+			}
+			if sl.High != nil || sl.Low == nil {
+				return false
+			}
+			bo, ok := sl.Low.(*ssa.BinOp)
+			if !ok || bo.Op != token.ADD {
+				return false
+			}
+			k, okk := constInt(bo.Y)
+			return okk && k == 2 && bo.X == ssa.Value(split)
 		}
 		return c.isElemOf(v, split, int64(i))
 	}
@@ -445,6 +549,19 @@ func (c *Ctx) trailingRule(pl *ssa.Function, lineAlloc *ssa.Alloc, param *ssa.Pa
 			if ex, isE := cd.V.(*ssa.Extract); isE && ex.Tuple == ssa.Value(split) && ex.Index == 2 && cd.True {
 				ok, why = true, "appended exactly when Cut found the separator (empty trailing kept)"
 			}
+		} else if isIdx {
+			p := c.NewProver()
+			fc := p.newCtx()
+			fc.cond(conds[0])
+			if fc.entails(leExpr(constLin(0), fc.iexpr(split))) {
+				fc2 := p.newCtx()
+				other := conds[0]
+				other.True = !other.True
+				fc2.cond(other)
+				if fc2.entails(leExpr(fc2.iexpr(split), constLin(-1))) {
+					ok, why = true, "appended exactly when Index found the separator (empty trailing kept)"
+				}
+			}
 		} else {
 			p := c.NewProver()
 			fc := p.newCtx()
@@ -474,7 +591,7 @@ func (c *Ctx) trailingRule(pl *ssa.Function, lineAlloc *ssa.Alloc, param *ssa.Pa
 			if e == ssa.Value(fieldsCall) {
 				okPhi = true
 			}
-			if f, ok := e.(*ssa.Call); ok && calleeName(&f.Call) == "strings.Fields" && part(f.Call.Args[0], 0) {
+			if f, ok := e.(*ssa.Call); ok && calleeName(&f.Call) == "strings.Fields" && (part(f.Call.Args[0], 0) || (isIdx && f.Call.Args[0] == rest)) {
 				okPhi = true
 			}
 		}
@@ -854,6 +971,19 @@ func runC10(c *Ctx) {
 		if okW && !nz {
 			okW, why = false, "the wait is not guarded by the returned delay being non-zero"
 		}
+		// no other condition may decide whether a charged line is held
+		if okW {
+			for _, cd := range CondsAt(w.Block()) {
+				cd2 := unwrapNot(cd)
+				if fv, _ := loadedField(cd2.V); fv == a.CfgFlood {
+					continue
+				}
+				if bo, ok := cd2.V.(*ssa.BinOp); ok && (bo.X == ssa.Value(rlCall) || bo.Y == ssa.Value(rlCall)) {
+					continue
+				}
+				okW, why = false, "whether the line is held also depends on the condition at "+c.InstrPos(cd.If)+" ("+cd2.V.String()+")"
+			}
+		}
 		// precedes the socket write on that path
 		var anchor ssa.Instruction = w
 		if hf != wf {
@@ -949,4 +1079,70 @@ func (c *Ctx) isHybridCharge(v ssa.Value, chars ssa.Value) (bool, string) {
 		return true, "2*Second + Duration(chars)*Second/120"
 	}
 	return false, "terms are not 2*Second and Duration(chars)*Second/120"
+}
+
+// constTableValue: v is read from a package-level map all of whose values
+// (set in the package initialiser) are string constants.
+func (c *Ctx) constTableValue(v ssa.Value) bool {
+	var lk *ssa.Lookup
+	switch t := v.(type) {
+	case *ssa.Lookup:
+		lk = t
+	case *ssa.Extract:
+		lk, _ = t.Tuple.(*ssa.Lookup)
+		if t.Index != 0 {
+			return false
+		}
+	}
+	if lk == nil {
+		return false
+	}
+	u, ok := lk.X.(*ssa.UnOp)
+	if !ok || u.Op != token.MUL {
+		return false
+	}
+	g, ok := u.X.(*ssa.Global)
+	if !ok {
+		return false
+	}
+	init := c.Client.Func("init")
+	if init == nil {
+		return false
+	}
+	var mm ssa.Value
+	nStores := 0
+	for _, fn := range c.clientFuncs() {
+		funcInstrs(fn, func(in ssa.Instruction) {
+			if s, ok := in.(*ssa.Store); ok && s.Addr == ssa.Value(g) {
+				nStores++
+				if fn == init {
+					mm = s.Val
+				}
+			}
+		})
+	}
+	if mm == nil || nStores != 1 {
+		return false
+	}
+	n, allConst := 0, true
+	for _, fn := range c.clientFuncs() {
+		funcInstrs(fn, func(in ssa.Instruction) {
+			mu, ok := in.(*ssa.MapUpdate)
+			if !ok {
+				return
+			}
+			if mu.Map == mm {
+				n++
+				if _, isC := constString(mu.Value); !isC || fn != init {
+					allConst = false
+				}
+				return
+			}
+			// updates through a later load of the global
+			if lu, ok := mu.Map.(*ssa.UnOp); ok && lu.Op == token.MUL && lu.X == ssa.Value(g) {
+				allConst = false
+			}
+		})
+	}
+	return n > 0 && allConst
 }
